@@ -163,6 +163,23 @@ def rename_nodes(g, mapping):
     return out
 
 
+# names the library itself gives to auxiliary nodes it introduces (latent parents of bidirected edges in a
+# latent-variable DAG are called u_0, u_1, ...); a user's graph may use them too
+AUX_NAMES = ["u_0", "u_1", "u_2"]
+
+
+@st.composite
+def with_aux_names(draw, gs, chance=5):
+    """Occasionally call one or two nodes the way the library calls the latent nodes it introduces itself."""
+    g = draw(gs)
+    if draw(st.integers(0, chance - 1)) != 0:
+        return g
+    k = draw(st.integers(1, min(2, len(g["nodes"]))))
+    victims = list(draw(st.permutations(g["nodes"])))[:k]
+    aux = list(draw(st.permutations(AUX_NAMES)))[:k]
+    return rename_nodes(g, dict(zip(victims, aux)))
+
+
 @st.composite
 def with_odd_names(draw, gs, chance=4):
     """Occasionally give one or two nodes a name that is a valid variable name for y0 but not an identifier
